@@ -323,6 +323,9 @@ func TestC15Inbound(t *testing.T) {
 		deflate := mode.Mode != websocket.CompressionDisabled
 		takeover := deflate && (mode.Name == "server/takeover" || mode.Name == "client/takeover" || mode.Name == "client/takeover-client_no_ctx-resp")
 		closeRead := rapid.IntRange(0, 3).Draw(rt, "closeRead") == 0
+		// a slow producer: the application has a message open, has written a few bytes of it and
+		// then produces nothing more while the Pings arrive
+		slowProducer := rapid.IntRange(0, 2).Draw(rt, "slowProducer") == 0
 		var frames []ref.Frame
 		var msgs []inMsg
 		pingLen := func(k int) int { return (caseNo*7 + k*13) % 126 }
@@ -378,6 +381,12 @@ func TestC15Inbound(t *testing.T) {
 			// its Pongs go out between the frames of those messages
 			var wrote [][]byte
 			wdone := e.Call(func() {
+				if slowProducer {
+					if w, err := lc.C.Writer(context.Background(), websocket.MessageText); err == nil {
+						w.Write([]byte("hello, "))
+					}
+					return
+				}
 				for k := 0; k < 3; k++ {
 					m := expand(ckText, uint64(caseNo*17+k), 3000)
 					w, err := lc.C.Writer(context.Background(), websocket.MessageText)
@@ -470,9 +479,9 @@ func TestC15Inbound(t *testing.T) {
 				rec.Class(fmt.Sprintf("ping-len-seen:%03d", len(f.Payload)), 1)
 			}
 		}
-		rec.Case(inside || closeRead, fmt.Sprintf("in|%s|%v|%s|%d", mode.Name, closeRead, lens, len(frames)), "inbound", fmt.Sprintf("inbound-closeread:%v", closeRead))
+		rec.Case(inside || closeRead, fmt.Sprintf("in|%s|%v|%v|%s|%d", mode.Name, closeRead, slowProducer, lens, len(frames)), "inbound", fmt.Sprintf("inbound-closeread:%v", closeRead), fmt.Sprintf("inbound-application-writer-idle-with-a-message-open:%v", slowProducer))
 		if fail != "" {
-			rt.Fatalf("C15 inbound mode=%s closeRead=%v: %s", mode.Name, closeRead, fail)
+			rt.Fatalf("C15 inbound mode=%s closeRead=%v slowProducer=%v: %s", mode.Name, closeRead, slowProducer, fail)
 		}
 	})
 }
@@ -541,6 +550,96 @@ func TestC15Stall(t *testing.T) {
 					}
 				})
 				rec.Case(true, desc, "ping-while-a-write-is-held-up")
+				if msg != "" {
+					failCase(t, "C15", desc, "%s", msg)
+				}
+			}
+		}
+	}
+	// k Ping calls queue up behind a Write that is held up in the transport (they all wait for
+	// the frame lock at the same time); the window opens; the peer answers every Ping frame with
+	// its payload, in order or in reverse. Each call is matched to its own Pong: all return nil,
+	// and the k frames carry k different payloads.
+	for _, client := range []bool{false, true} {
+		for _, k := range []int{2, 3, 5} {
+			for _, reverse := range []bool{false, true} {
+				desc := fmt.Sprintf("queued|client=%v|k=%d|reverse=%v", client, k, reverse)
+				var msg string
+				synctest.Test(t, func(t *testing.T) {
+					e := newEnv(t)
+					defer e.Teardown()
+					lc, err := e.open(connSpec{Client: client})
+					if err != nil {
+						msg = "handshake: " + err.Error()
+						return
+					}
+					p := lc.Peer
+					var mu sync.Mutex
+					var seen [][]byte
+					p.onFrame = func(f ref.Frame) {
+						if f.Opcode != ref.OpPing {
+							return
+						}
+						mu.Lock()
+						seen = append(seen, append([]byte(nil), f.Payload...))
+						all := len(seen) == k
+						batch := append([][]byte(nil), seen...)
+						mu.Unlock()
+						if !all {
+							return
+						}
+						if reverse {
+							for i, j := 0, len(batch)-1; i < j; i, j = i+1, j-1 {
+								batch[i], batch[j] = batch[j], batch[i]
+							}
+						}
+						for _, pl := range batch {
+							p.send(ref.Frame{Fin: true, Opcode: ref.OpPong, Payload: pl})
+						}
+					}
+					p.start(e)
+					e.Go(func() {
+						for {
+							if _, _, err := lc.C.Read(context.Background()); err != nil {
+								return
+							}
+						}
+					})
+					lc.End.SetInBudget(0)
+					e.Go(func() { lc.C.Write(context.Background(), websocket.MessageBinary, make([]byte, 9000)) })
+					synctest.Wait()
+					errs := make([]error, k)
+					var dones []<-chan struct{}
+					for i := 0; i < k; i++ {
+						i := i
+						dones = append(dones, e.Call(func() { errs[i] = lc.C.Ping(context.Background()) }))
+						synctest.Wait()
+					}
+					e.sleep(300 * time.Millisecond)
+					lc.End.SetInBudget(-1)
+					for i, d := range dones {
+						if !within(d, 30*time.Second) {
+							mu.Lock()
+							msg = fmt.Sprintf("Ping call %d of %d that queued behind a held-up Write did not return within 30 s although every Ping frame was answered with its payload (Ping frames seen: %q)", i, k, seen)
+							mu.Unlock()
+							return
+						}
+						if errs[i] != nil {
+							msg = fmt.Sprintf("Ping call %d of %d failed: %v", i, k, errs[i])
+							return
+						}
+					}
+					mu.Lock()
+					defer mu.Unlock()
+					for i := range seen {
+						for j := 0; j < i; j++ {
+							if bytes.Equal(seen[i], seen[j]) {
+								msg = fmt.Sprintf("two of the %d concurrent Pings carry the same payload %q", k, seen[i])
+							}
+						}
+					}
+				})
+				rec.Case(true, desc, "pings-queued-behind-a-held-up-write")
 				if msg != "" {
 					failCase(t, "C15", desc, "%s", msg)
 				}
